@@ -8,11 +8,14 @@ from .. import canon, gen
 from ..core import call_real
 
 ID = "C11"
-LEAN_MODULE = "CKT.Props.C11"
+LEAN_MODULE = "CKT.Props.C11Meas"
 THEOREMS = [
     "CKT.C11.mergeLetters_spec", "CKT.C11.go_spec", "CKT.C11.mostGeneral_spec", "CKT.C11.mostGeneral_refuses_empty",
     "CKT.C11.mergeLetters_incompatible", "CKT.C11.maskGo_testBit", "CKT.C11.maskOf_testBit", "CKT.C11.mem_pauliIndices",
     "CKT.C11.checkCollection_sound", "CKT.C11.mkGroup_spec", "CKT.C11.measuredIndices_spec",
+    # shape of the appended measurement block (Props/C11Meas): per measured qubit one basis rotation on that qubit (h / sx / none) directly
+    # followed by its measurement into its own bit; the explicit-locations form with the identity map is the default form
+    "CKT.C11.measBlock_spec", "CKT.C11.measurementInstrs_measures", "CKT.C11.appendMeasurementLoc_identity",
 ]
 RULE = ("Pauli lists on 1-6 qubits (duplicates, all-identity, mutually anticommuting sets, up to 40 entries) through ObservableCollection, "
         "most_general_observable on compatible and incompatible lists, measurement circuits for every group on random preparation circuits; "
